@@ -52,7 +52,8 @@ parsingLoop:
 		}
 
 		// Process line.
-		nextChar := i + len(string(char))
+		_, charSize := utf8.DecodeRuneInString(text[i:])
+		nextChar := i + charSize
 		currentLine := text[currentLineStart:nextChar]
 		line := NewLineFromString(currentLine)
 
